@@ -3,6 +3,7 @@ CONSTANTS
   NameMask = 4095
   Family = "exts"
   MaxKeys = 3
+  MaxEdits = 1
   Defect = "none"
 INVARIANT OrderInv
 INVARIANT ShapeInv
